@@ -172,12 +172,17 @@ CLAIMED["C17"] = _entry(
 )
 
 _PENDING = "check not built yet in this session (planned per DESIGN.md section 3); listed here until its static rules exist and pass on the pinned tree"
-NOT_APPLICABLE = {pid: _PENDING for pid in [f"C{i:02d}" for i in range(1, 21)] if pid not in CLAIMED and pid != "C07"}
-NOT_APPLICABLE["C07"] = (
-    "ListBox's window invariants are arithmetic relations between offset_rows, inset_fraction, item heights and maxrow across call histories; "
-    "no clause of this property has a shape-of-code form a sound static rule could decide without freezing today's source as the specification "
-    "(the generic DIM/INV/CANV/RET rules do run over listbox.py, but what they decide belongs to C01/C06/C08/C09)"
+CLAIMED["C07"] = _entry(
+    "Static analysis decides a set of necessary structural conditions of the ListBox window: the rows cut off below the focus item and the rows free below it come from one state, "
+    "every screen-order use of the bottom-up list of items above the focus reverses it (render and mouse_event attribute rows to the same items), a parked focus position goes back to "
+    "the walker only under an IndexError/KeyError handler, an empty body and non-integral positions are rejected with IndexError, every while loop makes progress, a button-1 press on a "
+    "selectable item reaches change_focus() with the found position and row before it is forwarded, the canvas is padded at the bottom only, every item is measured and drawn at (maxcol,), "
+    "render() cross-checks calculated against rendered rows for all three groups, the two bundled walkers step positions identically, the focus flag is forwarded. "
+    "That the window is gap-free and contains the focus for every history is arithmetic over runtime state and is not decided (level 'other').",
+    "DESIGN.md section 3, C07",
+    "static analysis: CFG dominance / must-pass-through, reaching definitions with linear canonical forms, sibling comparison, loop-progress analysis",
 )
+NOT_APPLICABLE = {pid: _PENDING for pid in [f"C{i:02d}" for i in range(1, 21)] if pid not in CLAIMED}
 
 NOTES = (
     "Technique family: static analysis only. Every check parses /repo/urwid's current working tree on every run (no caches across runs), "
